@@ -75,6 +75,22 @@ package outlier
 //@     invariant[half-open-passive] len(halfs) > 0 ==> !rule.EnableActiveRecovery
 //@     invariant[registry-untouched] nodeBreakers[ctx.Resource.name] == nodes && outlierRules[ctx.Resource.name] == rule
 
+// the slot hands exactly this request's lists to the caller: the filter list of the (pooled, reused) rule-check result is
+// overwritten on every request of a named resource, so a node reported for filtering is one whose breaker rejected
+// THIS request, never a left-over of an earlier one
+//@ func (s *Slot) Check(ctx) r
+//@   props C20
+//@   requires ctx != nil && ctx.Resource != nil && ctx.RuleCheckResult != nil && outlierRules[ctx.Resource.name] != nil
+//@   let rule = outlierRules[ctx.Resource.name]
+//@   let nodes = nodeBreakers[ctx.Resource.name]
+//@   let n = len(nodes)
+//@   requires 0.0 <= rule.MaxEjectionPercent && rule.MaxEjectionPercent <= 1.0 && 0 <= n && n <= 1048576 && (forall a Str :: has(nodes, a) ==> nodes[a] != nil)
+//@   requires forall a Str :: forall b Str :: has(nodes, a) && has(nodes, b) && a != b ==> dynptr(nodes[a]) != dynptr(nodes[b])
+//@   ensures[same-result] r == old(ctx.RuleCheckResult)
+//@   ensures[share-bound] len(ctx.Resource.name) > 0 ==> len(r.filterNodes) <= floor(R(n) * rule.MaxEjectionPercent)
+//@   ensures[reported-reject-this-request] len(ctx.Resource.name) > 0 ==> (forall j Int :: 0 <= j && j < len(r.filterNodes) ==> has(nodes, r.filterNodes[j]) && rejects(nodes[r.filterNodes[j]]))
+//@   ensures[half-open-are-passive-probes] len(ctx.Resource.name) > 0 ==> (forall j Int :: 0 <= j && j < len(r.halfOpenNodes) ==> has(nodes, r.halfOpenNodes[j]) && !rejects(nodes[r.halfOpenNodes[j]]) && !rule.EnableActiveRecovery)
+
 // ---- recycling: a node is only removed when it is marked "not recovered"; a successful completion marks it recovered
 //@ func deleteNodeBreakerOfResource(resource, address)
 //@   assumed
